@@ -230,20 +230,23 @@ def generate(rng: random.Random, tier: str) -> dict:
             steps.append([rng.choice(["copy", "pickle"]), rng.choice(crs_slots + val_slots)])
             n_pool += 1
             (crs_slots if steps[-1][1] in crs_slots else val_slots).append(n_pool - 1)
-        elif r < 0.78 and len(crs_slots) >= 1:
+        elif r < 0.74 and len(crs_slots) >= 1:
             a, b = rng.choice(crs_slots), rng.choice(crs_slots)
             steps.append(["transform", a, b, rng.random() < 0.6])
-        elif r < 0.85 and (crs_slots or val_slots):
+        elif r < 0.79 and (crs_slots or val_slots):
             s = rng.choice(crs_slots + val_slots)
             steps.append(["drop", s])
             (crs_slots if s in crs_slots else val_slots).remove(s)
-        elif r < 0.855 and (crs_slots or val_slots):
+        elif r < 0.825 and (crs_slots or val_slots):
+            # ship a value to an interpreter with another hash seed (optionally after it was hashed here)
+            steps.append(["xi", rng.choice(val_slots + val_slots + crs_slots), rng.random() < 0.6])
+        elif r < 0.86 and (crs_slots or val_slots):
             steps.append(["use", rng.choice(val_slots + val_slots + crs_slots)])  # read-only use; may fill lazily cached state
-        elif r < 0.875 and crs_slots:
+        elif r < 0.885 and crs_slots:
             steps.append(["epsg", rng.choice(crs_slots)])  # read-only accessor; fills a lazily computed field
-        elif r < 0.90:
+        elif r < 0.91:
             steps.append(["gc"])
-        elif r < 0.94 and crs_slots:
+        elif r < 0.945 and crs_slots:
             steps.append(["churn", rng.sample(CHURN_CODES, rng.choice([1, 2, 3])), rng.choice(crs_slots), rng.random() < 0.6])
         elif crs_slots is not None:
             T = rng.choice([2, 2, 3])
@@ -379,7 +382,7 @@ def build_comp(kind: str, v: int, crs: Any) -> Any:
             a[4] *= 1 + TINY
         return GeoBox(shp, Affine(*a), crs)
     if kind == "gcp":
-        v = v % 10
+        v = v % 12
         pix = [(0, 0), (10, 0), (10, 12), (0, 12), (5, 6)]
         wld = [(100.0, 500.0), (200.0, 501.0), (202.0, 380.0), (99.0, 379.0), (150.0, 440.0)]
         if v in (1, 5):
@@ -390,6 +393,10 @@ def build_comp(kind: str, v: int, crs: Any) -> Any:
             wld[2] = (202.0 * (1 + TINY), 380.0)
         if v == 9:
             pix[1] = (10 * (1 + TINY), 0)
+        if v == 10:
+            wld[2] = (math.nextafter(202.0, 300.0), 380.0)  # one ulp
+        if v == 11:
+            wld[0] = (100.0, 500.0 + 1e-12)
         shp = (12, 10) if v != 3 else (10, 12)
         import numpy as np
 
@@ -418,6 +425,11 @@ def build_comp(kind: str, v: int, crs: Any) -> Any:
     if kind == "vtiles":
         fam = [((5, 5), (3, 7)), ((5, 5), (7, 3)), ((5, 5), (3, 7)), ((4, 6), (3, 7)), ((10,), (10,)), ((5, 5), (10,)), ((5, 5, 0), (3, 7)), ((5, 5), (3, 6)),
                ((6, 4), (3, 7)), ((3, 7), (5, 5)), ((5, 5), (3, 3, 4)), ((5, 6), (3, 7))]
+        if v in (12, 13):  # more than a thousand chunks, differing only in the middle
+            rows = [2] * 1200
+            if v == 13:
+                rows[600], rows[601] = 1, 3
+            return VariableSizedTiles((tuple(rows), (3, 7)))
         return VariableSizedTiles(fam[v % len(fam)])
     if kind == "xy":
         return [xy_(1, 2), xy_(2, 1), xy_(1.0, 2.0), xy_(1, 3), xy_(1.5, 2), xy_(-1, 2), xy_(0, 0), xy_(1, 2), xy_(1.0, 2.0 * (1 + TINY)), xy_(math.nextafter(1.0, 2.0), 2.0), xy_(1e-300, 2), xy_(-0.0, 2), xy_(0.0, 2)][v % 13]
@@ -518,6 +530,7 @@ class History:
             "flood_constructions": 0,
             "racing_transformer_requests": 0,
             "values_used_then_rechecked": 0,
+            "values_sent_to_other_interpreter": 0,
         }
         self.steps_done = 0
         self.switches = 0
@@ -654,6 +667,44 @@ class History:
         for x, y in itertools.combinations(same, 2):
             if (x["value"] == y["value"]) and ((y["value"] == v) != (x["value"] == v)):
                 self.report("O19.1", f"{kind}-eq-not-transitive", {"kind": kind, "a": x.get("spec"), "b": y.get("spec"), "c": e.get("spec")})
+
+    def cross_interpreter(self, e: Dict[str, Any], hash_first: bool) -> None:
+        """Pickle a value here, unpickle it in an interpreter with another string-hash seed and
+        compare it there with the same value built from its spec: equal, equal hashes, and the
+        token it has there is the token it has here."""
+        p = _PEER.get("proc")
+        spec = e.get("spec")
+        if p is None or spec is None or e.get("via") not in (None, "spec"):
+            return
+        kind = e["kind"]
+        req: Dict[str, Any] = {"kind": kind}
+        if kind == "crs":
+            if spec[1] not in STABLE_ROUTES:
+                return
+            req["spec"] = list(spec)
+        else:
+            crs_spec = spec[2] if len(spec) > 2 else None
+            if crs_spec is not None and (not isinstance(crs_spec, list) or len(crs_spec) != 2 or crs_spec[1] not in STABLE_ROUTES):
+                return
+            req["variant"], req["crs_spec"] = spec[1], crs_spec
+        v = e["value"]
+        if hash_first and e.get("hashable"):
+            _ = {v: 1}  # used as a dictionary key before it travels
+        req["blob"] = pickle.dumps(v)
+        _send(p.stdin, req)
+        rep = _recv(p.stdout)
+        self.probes["values_sent_to_other_interpreter"] += 1
+        what = {"kind": kind, "spec": spec, "hashed_before_pickling": bool(hash_first and e.get("hashable"))}
+        if "error" in rep:
+            if rep.get("error_from_repo"):
+                self.report("O19.4", f"{kind}-cannot-be-unpickled-in-another-interpreter", {**what, "error": rep["error"]})
+            raise HarnessError(f"peer interpreter failed: {rep['error']}")
+        if not rep["eq"]:
+            self.report("O19.4", f"{kind}-not-equal-after-crossing-interpreters", what)
+        if rep["hash_eq"] is False:
+            self.report("O19.2", f"{kind}-equal-but-hashes-differ-across-interpreters", what)
+        if rep["token"] != e["token"] or rep["token_rebuilt"] != e["token"]:
+            self.report("O19.3", f"{kind}-token-differs-across-interpreters", what)
 
     def use_value(self, e: Dict[str, Any]) -> None:
         """Read-only use of a value (accessors, lookups, derived objects), then: its token and
@@ -819,6 +870,10 @@ class History:
                     if other is not None and other["kind"] == "crs":
                         self.check_transform(e, other, bool(step[3]), quiet=True)
                 self.ch.count("churn", len(step[1]))
+            elif op == "xi":
+                e = self.pool.get(step[1])
+                if e is not None:
+                    self.cross_interpreter(e, bool(step[2]))
             elif op == "use":
                 e = self.pool.get(step[1])
                 if e is not None:
@@ -925,6 +980,86 @@ class History:
             if specs[i] == specs[j] and a.proj is not b.proj:
                 self.probes["race_both_threads_missed_cache"] += 1
         del before
+
+
+# --------------------------------------------------------------------------------------
+# a second interpreter with another string-hash seed (what every dask worker is)
+# --------------------------------------------------------------------------------------
+_PEER: Dict[str, Any] = {}
+PEER_HASHSEED = "271828"
+STABLE_ROUTES = ("int", "EPSG", "epsg", "Epsg")  # CRS spellings whose str() does not depend on the peer's own history
+
+
+def _send(f, obj) -> None:
+    b = pickle.dumps(obj, protocol=pickle.HIGHEST_PROTOCOL)
+    f.write(len(b).to_bytes(8, "big"))
+    f.write(b)
+    f.flush()
+
+
+def _recv(f) -> Any:
+    n = f.read(8)
+    if len(n) < 8:
+        raise HarnessError("peer interpreter closed the pipe")
+    return pickle.loads(f.read(int.from_bytes(n, "big")))
+
+
+def ensure_peer() -> None:
+    """Start (once per batch worker, before forking a history) an interpreter with a different
+    PYTHONHASHSEED; forked history children talk to it through the inherited pipes."""
+    import atexit
+    import subprocess
+    import sys
+
+    p = _PEER.get("proc")
+    if p is not None and p.poll() is None:
+        return
+    env = dict(os.environ)
+    env["PYTHONHASHSEED"] = PEER_HASHSEED
+    main = os.path.join(os.path.dirname(os.path.abspath(__file__)), "main.py")
+    p = subprocess.Popen([sys.executable, main, "c19-peer"], env=env, stdin=subprocess.PIPE, stdout=subprocess.PIPE, stderr=subprocess.DEVNULL)
+    hello = _recv(p.stdout)
+    if hello.get("hashseed") != PEER_HASHSEED or hash("odcsim") == hello.get("probe"):
+        raise HarnessError(f"peer interpreter does not have another hash seed: {hello}")
+    _PEER["proc"] = p
+    atexit.register(lambda: p.kill())
+
+
+def peer_main() -> int:
+    """Loop of the peer interpreter: unpickle what arrives, rebuild the same value locally from
+    its spec, report equality / hash agreement / tokens."""
+    import sys
+
+    from dask.base import tokenize
+
+    from . import bootstrap
+
+    bootstrap.boot()
+    parent_init("quick", {})
+    out, inp = sys.stdout.buffer, sys.stdin.buffer
+    _send(out, {"hashseed": os.environ.get("PYTHONHASHSEED"), "probe": hash("odcsim")})
+    while True:
+        try:
+            req = _recv(inp)
+        except Exception:  # pylint: disable=broad-except
+            return 0
+        rep: Dict[str, Any] = {}
+        try:
+            v = pickle.loads(req["blob"])
+            crs = build_crs(*req["crs_spec"]) if req.get("crs_spec") else None
+            w = build_crs(*req["spec"]) if req["kind"] == "crs" else build_comp(req["kind"], req["variant"], crs)
+            rep["eq"] = bool(v == w and w == v)
+            try:
+                rep["hash_eq"] = hash(v) == hash(w)
+            except TypeError:
+                rep["hash_eq"] = None
+            rep["token"] = tokenize(v)
+            rep["token_rebuilt"] = tokenize(w)
+        except Exception as e:  # pylint: disable=broad-except
+            kind_, sig = classify_exception(e)
+            rep["error"] = f"{type(e).__name__}: {str(e)[:160]}"
+            rep["error_from_repo"] = kind_ == "repo"
+        _send(out, rep)
 
 
 _PENDING_BASELINE: Dict[Tuple[Any, str], Any] = {}
@@ -1082,6 +1217,8 @@ def execute(record: dict, rng: Optional[random.Random]) -> Outcome:
         raise HarnessError("C19 worker is not pristine: the CRS cache is not empty")
     ensure_baselines(record)
     ensure_refs(record)
+    if any(st[0] == "xi" for st in record["workload"]["steps"]):
+        ensure_peer()
     gc.freeze()  # children collect only what they allocate themselves (the inherited heap is large)
     res = _in_fork(_history_child, record, None if rng is None else rng.getstate())
     ch = Chooser(None, [], [], None)
@@ -1122,10 +1259,10 @@ def _drop_step(steps: List[List[Any]], i: int) -> Optional[List[List[Any]]]:
         if j == i:
             continue
         s = copy.deepcopy(s)
-        if s[0] in ("copy", "pickle", "drop", "epsg", "use"):
+        if s[0] in ("copy", "pickle", "drop", "epsg", "use", "xi"):
             s[1] = ren(s[1])
             if s[1] == -1:
-                if s[0] in ("drop", "epsg", "use"):
+                if s[0] in ("drop", "epsg", "use", "xi"):
                     continue
                 return None
         elif s[0] == "transform":
